@@ -10,6 +10,7 @@ import (
 	"encoding/json"
 	"fmt"
 	"os"
+	"path/filepath"
 	"reflect"
 	"sort"
 	"strings"
@@ -213,6 +214,7 @@ func runOne(c Case, h any) (res Result) {
 	cur.inputs, cur.pos, cur.underflow = c.Inputs, 0, false
 	cur.observes, cur.reached = nil, nil
 	res.ID = c.ID
+	defer fsCleanup()
 	defer func() {
 		res.Observes, res.Reached, res.Consumed = cur.observes, cur.reached, cur.pos
 		if r := recover(); r != nil {
@@ -239,3 +241,72 @@ func runOne(c Case, h any) (res Result) {
 	fv.Call(args)
 	return
 }
+
+// ---------------------------------------------------------------- filesystem
+//
+// Under the engine these act on an in-engine filesystem model rooted at
+// FSRoot() (package os is stubbed); natively they act on a real temporary
+// directory, so that the same harness replays against the real os package.
+
+var fsRoot string
+
+func FSRoot() string {
+	if fsRoot == "" {
+		d, err := os.MkdirTemp("", "verifsym-fs-")
+		if err != nil {
+			panic(err)
+		}
+		fsRoot = d
+	}
+	return fsRoot
+}
+
+func fsCleanup() {
+	if fsRoot != "" {
+		os.RemoveAll(fsRoot)
+		fsRoot = ""
+	}
+}
+
+func FSPut(path, data string) {
+	os.MkdirAll(filepath.Dir(path), 0o755)
+	if err := os.WriteFile(path, []byte(data), 0o644); err != nil {
+		panic(err)
+	}
+}
+
+func FSMkdir(path string) { os.MkdirAll(path, 0o755) }
+
+func FSGet(path string) (string, bool) {
+	b, err := os.ReadFile(path)
+	if err != nil {
+		return "", false
+	}
+	return string(b), true
+}
+
+// FSFailOpen makes opening path for writing fail (natively: a directory of that name).
+func FSFailOpen(path string) {
+	os.RemoveAll(path)
+	os.MkdirAll(path, 0o755)
+}
+
+// FSTrace returns the ordered list of filesystem effects (engine only; nil natively).
+func FSTrace() []string { return nil }
+
+// FSList lists all regular files under the root (sorted).
+func FSList() []string {
+	var out []string
+	filepath.Walk(FSRoot(), func(p string, info os.FileInfo, err error) error {
+		if err == nil && info.Mode().IsRegular() {
+			out = append(out, p)
+		}
+		return nil
+	})
+	sort.Strings(out)
+	return out
+}
+
+// ParsedSources returns [name0, text0, name1, text1, ...] of everything handed
+// to the (stubbed) Go parser on this path (engine only; nil natively).
+func ParsedSources() []string { return nil }
